@@ -4,7 +4,11 @@
 -/
 import Bita.Proofs.Writer
 import Bita.Proofs.CloneSound
+import Bita.Proofs.CloneNoJunk
 import Bita.Proofs.Schedule
+import Bita.Proofs.CliRoundtrip
+import Bita.Proofs.CliRoundtripExamples
+import Bita.Proofs.ReaderEnv
 
 namespace Bita.Props.C01
 open Bita Bita.Spec Bita.Proofs
@@ -29,7 +33,9 @@ theorem compress_conforms (H : Bytes → Bytes) (hH : ∀ x, (H x).length = 64)
 
 /-- **T2 (round trip).**  Cloning what compress produced - through the local or (by C08) the HTTP
 reader, with any seeds, any prior output, in place or not - reports success and yields exactly
-the source, with exactly the source's length; or a hash collision is exhibited. -/
+the source, with exactly the source's length; or a hash collision is exhibited.  The only
+escape on the clone side is a collision of the truncated strong hash with a genuine source
+chunk; colliding junk chunks in the prior output are irrelevant (`Proofs.reorderOps_keep`). -/
 theorem roundtrip (H : Bytes → Bytes) (hH : ∀ x, (H x).length = 64)
     (writer : String) (hw : writer = "lib" ∨ writer = "cli")
     (comp : Bytes → Bytes) (decomp : Nat → Bytes → Nat → Option Bytes) (hcodec : CodecOK comp decomp)
@@ -44,19 +50,88 @@ theorem roundtrip (H : Bytes → Bytes) (hH : ∀ x, (H x).length = 64)
     (r.result = .ok ∧ r.output = src) ∨
     (∃ c1 ∈ chunkAll o.cfg src, ∃ c2 ∈ chunkAll o.cfg src,
       slice src c1.1 c1.2 ≠ slice src c2.1 c2.2 ∧ H (slice src c1.1 c1.2) = H (slice src c2.1 c2.2)) ∨
-    (∃ (a : Archive) (cks : List Bytes), Collision H a.hashLength cks ∧ src = cks.flatten) ∨
-    (∃ a : Archive, opts.seedOutput = true ∧ SelfCollision H a.hashLength a.config prior) := by
+    (∃ (a : Archive) (cks : List Bytes), Collision H a.hashLength cks ∧ src = cks.flatten) := by
   intro archive r
   rcases createArchive_conforms H hH writer hw comp decomp hcodec hne o ho src hfit hsrc hcnt with hc | hcol
   · obtain ⟨a, cks, hinit, hd, hs⟩ := hc
-    have := clone_complete H hH decomp [] archive opts prior seeds a src cks hinit hd hs
+    have := clone_complete_nojunk H hH decomp [] archive opts prior seeds a src cks hinit hd hs
       (by intro pin hp; rw [hpin] at hp; cases hp) (by intro h; rw [hdev] at h; cases h)
       (by intro h; rw [hdev] at h; cases h)
-    rcases this with ⟨hok, _, hout⟩ | hcoll | hself
+    rcases this with ⟨hok, _, hout⟩ | hcoll
     · exact Or.inl ⟨hok, hout hdev⟩
-    · exact Or.inr (Or.inr (Or.inl ⟨a, cks, hcoll, hd.tiles⟩))
-    · exact Or.inr (Or.inr (Or.inr ⟨a, hself⟩))
+    · exact Or.inr (Or.inr ⟨a, cks, hcoll, hd.tiles⟩)
   · exact Or.inr (Or.inl hcol)
+
+/-- **T2 at the command line** (file-system model of `bita compress` / `bita clone`, open flags and
+step order read from the source): in any file system where the input exists and the archive and
+temp paths do not, `compress` succeeds; `clone` of the archive it left - into a path that does
+not exist, or over a regular file with `--force-create` / `--seed-output`, with any seed files
+that exist, any options - succeeds, leaves exactly the source in the output and changes no other
+path; or a hash collision among the chunks of the source is exhibited (chunks of an existing
+output that collide with no source chunk are irrelevant). -/
+theorem cli_roundtrip (H : Bytes → Bytes) (hH : ∀ x, (H x).length = 64)
+    (comp : Bytes → Bytes) (decomp : Nat → Bytes → Nat → Option Bytes) (hcodec : CodecOK comp decomp)
+    (hne : ∀ x, x ≠ [] → comp x ≠ [])
+    (cc : CompressCmd) (kc : CloneCmd) (fs : Fs) (inode : Node)
+    (hfacts : FactsAsExpected) (hflush : Gen.cliTempFlushedBeforeReturn = true)
+    (ho : OptsOK cc.opts)
+    (hin : fs.get cc.input = some inode)
+    (hnew : fs.get cc.output = none) (htmp : fs.get cc.temp = none)
+    (hdistinct : cc.temp ≠ cc.output ∧ cc.input ≠ cc.output ∧ cc.input ≠ cc.temp)
+    (hfit : (createArchive H "cli" comp cc.opts inode.data).length < 2 ^ 63)
+    (hsrc : inode.data.length < 2 ^ 64) (hcnt : (chunkAll cc.opts.cfg inode.data).length ≤ 2 ^ 32)
+    (harch : kc.archivePath = cc.output) (hko : kc.output ≠ cc.output)
+    (hout : fs.get kc.output = none ∨
+      ((kc.flags.force = true ∨ kc.flags.seedOutput = true) ∧ ∃ d, fs.get kc.output = some (.regular d)))
+    (hpin : kc.pin = none)
+    (hseeds : ∀ p ∈ kc.seedPaths, (fs.get p).isSome ∨ p = cc.output) :
+    let r1 := Cli.compress H comp cc fs
+    let r2 := Cli.clone H decomp kc r1.fs
+    r1.ok = true ∧
+    ((r2.ok = true ∧ r2.fs.get kc.output = some (.regular inode.data) ∧
+        (∀ p, p ≠ kc.output → p ≠ cc.output → r2.fs.get p = fs.get p)) ∨
+      (∃ c1 ∈ chunkAll cc.opts.cfg inode.data, ∃ c2 ∈ chunkAll cc.opts.cfg inode.data,
+        slice inode.data c1.1 c1.2 ≠ slice inode.data c2.1 c2.2 ∧
+        H (slice inode.data c1.1 c1.2) = H (slice inode.data c2.1 c2.2)) ∨
+      (∃ (a : Archive) (cks : List Bytes), Collision H a.hashLength cks ∧ inode.data = cks.flatten)) :=
+  Proofs.cli_roundtrip H hH comp decomp hcodec hne cc kc fs inode hfacts hflush ho hin hnew htmp hdistinct
+    hfit hsrc hcnt harch hko hout hpin hseeds
+
+/-- **T2 over HTTP.**  What compress produced, behind an honest server and the model of
+`HttpReader` with at most `--http-retry-count` failing responses (refused or cut anywhere, any
+fragmentation), clones to exactly the source - or a hash collision among the chunks of the
+source is exhibited. -/
+theorem roundtrip_over_http (H : Bytes → Bytes) (hH : ∀ x, (H x).length = 64)
+    (writer : String) (hw : writer = "lib" ∨ writer = "cli")
+    (comp : Bytes → Bytes) (decomp : Nat → Bytes → Nat → Option Bytes) (hcodec : CodecOK comp decomp)
+    (hne : ∀ x, x ≠ [] → comp x ≠ [])
+    (o : CompressOpts) (ho : OptsOK o) (src : Bytes)
+    (hfit : (createArchive H writer comp o src).length < 2 ^ 63)
+    (hsrc : src.length < 2 ^ 64) (hcnt : (chunkAll o.cfg src).length ≤ 2 ^ 32)
+    (e : HttpEnv) (opts : CloneOpts) (prior : Bytes) (seeds : List Bytes) (hpin : opts.headerPin = none)
+    (hdev : opts.blockDev = false)
+    (hserve : e.serve = honestServe (createArchive H writer comp o src))
+    (hat : ∀ off size, ∃ frags rest, e.atScript off size = Resp.full frags :: rest)
+    (hbad : (e.chunksScript.filter (fun r => match r with | .full _ => false | .part _ _ cut => cut | .refuse => true)).length ≤ e.retry)
+    (hnoend : ∀ r ∈ e.chunksScript, ∀ n frags, r ≠ Resp.part n frags false)
+    :
+    (∃ a, tryInit H [] (honestReadAt (createArchive H writer comp o src)) = .ok a ∧
+      (a.chunks.length ≤ (e.chunksScript.filter (fun r => match r with | .full _ => true | _ => false)).length →
+        let r := Clone.run H decomp [] e.readAt e.readChunks opts prior seeds
+        (r.result = .ok ∧ r.output = src) ∨
+        (∃ cks : List Bytes, Collision H a.hashLength cks ∧ src = cks.flatten))) ∨
+    (∃ c1 ∈ chunkAll o.cfg src, ∃ c2 ∈ chunkAll o.cfg src,
+      slice src c1.1 c1.2 ≠ slice src c2.1 c2.2 ∧ H (slice src c1.1 c1.2) = H (slice src c2.1 c2.2)) := by
+  rcases createArchive_conforms H hH writer hw comp decomp hcodec hne o ho src hfit hsrc hcnt with hc | hcol
+  · obtain ⟨a, cks, hinit, hd, hs⟩ := hc
+    refine Or.inl ⟨a, hinit, fun hlen => ?_⟩
+    have := clone_http_complete_budget H hH decomp [] _ e opts prior seeds a src cks hserve hat hinit hd hs
+      (by intro pin hp; rw [hpin] at hp; cases hp) (by intro h; rw [hdev] at h; cases h)
+      (by intro h; rw [hdev] at h; cases h) hbad hnoend hlen
+    rcases this with ⟨hok, _, hout⟩ | hcoll
+    · exact Or.inl ⟨hok, hout hdev⟩
+    · exact Or.inr ⟨cks, hcoll, hd.tiles⟩
+  · exact Or.inr hcol
 
 /-- **T3a (thread timing).**  Every `spawn_blocking` stage of the pipelines is followed by
 `buffered` (read from the source), and `buffered(n)` emits its inputs in order under *every*
